@@ -34,7 +34,17 @@ def parseOp (ws : List String) : Option Op :=
   | ["complete", s] => some (.complete (nat s))
   | ["rmfab", s, i] => some (.rmfab (nat s) (nat i))
   | ["revoke", s] => some (.revoke (nat s))
+  | ["bcw", s, v] => some (.bcw (nat s) (nat v))
+  | ["gkm", s, _] => some (.fwrite (nat s))
+  | ["nlabel", s, _] => some (.ext (nat s))
+  | ["ulabel", s, _] => some (.ext (nat s))
+  | ["bind", s, _] => some (.ext (nat s))
+  | ["sub", s] => some (.ext (nat s))
   | ["tick", t] => some (.tick (nat t))
+  -- handler level: `tick <secs> <sid>...` - while the time passed the subscription reporter gave up on
+  -- a report and dropped these sessions (see `step`)
+  | "tick" :: t :: _ => some (.tick (nat t))
+  | ["sdrop", s] => some (.sdrop (nat s))
   | ["poll"] => some .poll
   | ["flush"] => some .flush
   | ["restart"] => some .restart
@@ -42,6 +52,11 @@ def parseOp (ws : List String) : Option Op :=
   | ["kvfail", n] => some (.kvfail (nat n))
   | "corrupt" :: _ => some .corrupt
   | ["freset"] => some .freset
+  | ["hs", f, n, r] => some (.hs (nat f) (nat n) (nat r))
+  | ["hsdone", s] => some (.hsdone (nat s))
+  | ["rt", _, _] => some .nop
+  | ["coldreset"] => some .coldreset
+  | ["fabrecover", i] => some (.fabrecover (nat i))
   | _ => none
 
 structure FabV where
@@ -56,6 +71,7 @@ structure SessV where
   fab : Nat
   peer : Nat
   expired : Bool
+  reserved : Bool := false
 deriving Inhabited
 
 structure ResV where
@@ -76,6 +92,8 @@ structure View where
   kvRes : String := "none"
   kvOther : String := ""
   k : Nat := 0
+  /-- handler-level extension `X{…}`: memory and stored sections by name (empty at state level) -/
+  x : List (String × String) := []
 deriving Inhabited
 
 /-- text between the first `tag` and the next `]` -/
@@ -97,7 +115,7 @@ def parseFab (e : String) : FabV :=
 def parseSess (e : String) : SessV :=
   match e.splitOn ":" with
   | i :: m :: p :: rest =>
-    { id := nat i, kind := (m.take 1).toString, fab := nat (m.drop 1).toString, peer := nat p, expired := rest.contains "x" }
+    { id := nat i, kind := (m.take 1).toString, fab := nat (m.drop 1).toString, peer := nat p, expired := rest.contains "x", reserved := rest.contains "r" }
   | _ => { id := 0, kind := "?", fab := 0, peer := 0, expired := false }
 
 def parseRes (e : String) : ResV :=
@@ -105,10 +123,30 @@ def parseRes (e : String) : ResV :=
   | [f, p, r] => { fab := nat f, peer := nat p, rid := nat r }
   | _ => { fab := 0, peer := 0, rid := 0 }
 
+/-- the sections `NAME[...]` of the extension part ` X{ ... }` -/
+def parseX (rest : String) : List (String × String) :=
+  match rest.splitOn " X{" with
+  | _ :: x :: _ =>
+    let body := (x.splitOn "}").headD ""
+    (body.splitOn " ").filterMap (fun w =>
+      match w.splitOn "[" with
+      | [name, v] => some (name, (v.splitOn "]").headD "")
+      | _ => none)
+  | _ => []
+
+def xget (v : List (String × String)) (name : String) : String :=
+  match v.find? (fun p => p.1 = name) with
+  | some p => p.2
+  | none => ""
+
+/-- the line without the extension part (what the model is compared with) -/
+def stripX (out : String) : String := (out.splitOn " X{").headD out
+
 def parseView (out : String) : Option View :=
-  match out.splitOn " | " with
-  | [status, rest] =>
-    match rest.splitOn " KV{" with
+  match (stripX out).splitOn " | " with
+  | [status, rest0] =>
+    let rest := rest0 ++ (match out.splitOn " X{" with | _ :: x :: _ => " X{" ++ x | _ => "")
+    match rest0.splitOn " KV{" with
     | [mem, kv] =>
       let fsS := sect mem " FS["
       let armed := if fsS = "idle" then none else some (nat ((fsS.splitOn ".").headD "0"))
@@ -116,7 +154,7 @@ def parseView (out : String) : Option View :=
         | _ :: r :: _ => (r.splitOn " O[").headD ""
         | _ => ""
       let k := match kv.splitOn "} k=" with
-        | _ :: r :: _ => nat r
+        | _ :: r :: _ => nat ((r.splitOn " ").headD "0")
         | _ => 0
       some { status := status
              fabs := (items (sect mem "F[")).map parseFab
@@ -128,7 +166,8 @@ def parseView (out : String) : Option View :=
              kvNets := sect kv " N["
              kvRes := kvR
              kvOther := sect kv " O["
-             k := k }
+             k := k
+             x := parseX rest }
     | _ => none
   | _ => none
 
@@ -158,6 +197,16 @@ structure OSt where
   csr1 : Bool := false
   rootC : Bool := false
   nocC : Bool := false
+  /-- a factory reset ran and the node has not restarted yet (`Matter::factory_reset` leaves the
+  session table alone: the sessions of the wiped fabrics are not judged) -/
+  wiped : Bool := false
+  /-- handler-level extension: committed values by name (`B`, `UL`, `NL`, `K:<fab>`) -/
+  cmtX : List (String × String) := []
+  /-- bindings / subscriptions with the incarnation of the fabric they were made for -/
+  xBind : List (String × Nat) := []
+  /-- the committed group key maps (`K:<fab>` entries of `cmtX`, they live in the fabric blobs) by the
+  number of store mutations, newest first: a `crash n` comes up with those of mutation `n` -/
+  histX : List (Nat × List (String × String)) := []
 deriving Inhabited
 
 def lookupD (l : List (Nat × α)) (k : Nat) (d : α) : α :=
@@ -190,11 +239,27 @@ def diffView (fabs : List FabV) (nets : String) (c : Cmt) (skip : List Nat) : Op
 def viewCmt (v : View) : List (Nat × String) := v.fabs.map (fun (f : FabV) => (f.idx, f.canon))
 
 def restartLike : Op → Bool
-  | .restart | .crash _ | .corrupt => true
+  | .restart | .crash _ | .corrupt | .coldreset | .fabrecover _ => true
   | _ => false
 
 /-- the oracle: returns the new bookkeeping and the violations, each tagged with its property -/
-def oracle (st : OSt) (op : Op) (v : View) : OSt × List String :=
+def setS (l : List (String × String)) (k v : String) : List (String × String) := (k, v) :: l.filter (fun x => x.1 ≠ k)
+
+def getS (l : List (String × String)) (k d : String) : String :=
+  match l.find? (fun x => x.1 = k) with
+  | some x => x.2
+  | none => d
+
+/-- the entry `<fab>:<value>` of a per-fabric section such as `K[1:5+6;2:-]` -/
+def fabEntry (sec : String) (fab : Nat) : String :=
+  match (items sec).find? (fun e => (e.splitOn ":").headD "" = toString fab) with
+  | some e => ":".intercalate ((e.splitOn ":").drop 1)
+  | none => "-"
+
+/-- fabric index of an entry `<fab>.<x>` -/
+def entryFab (e : String) : Nat := nat ((e.splitOn ".").headD "0")
+
+def oracle (st : OSt) (op : Op) (v : View) (kind : String) (dropped : List Nat := []) : OSt × List String :=
   let p := st.prev
   let okS := isOk v.status
   let opSess : Option SessV := (isSessOp op).bind (fun sid => p.sess.find? (fun s => s.id = sid))
@@ -203,7 +268,8 @@ def oracle (st : OSt) (op : Op) (v : View) : OSt × List String :=
     | .tick t => st.now + t
     | _ => st.now
   -- the prologue of a session-borne command (and `poll`) runs the fail-safe timer
-  let timerRuns : Bool := (isSessOp op).isSome && opSess.isSome || op == .poll
+  -- (a reserved session takes no message: no prologue)
+  let timerRuns : Bool := (isSessOp op).isSome && (opSess.map (fun s => !s.reserved)).getD false || op == .poll
   let expiredByTimer : Bool := p.armed.isSome && timerRuns && st.now ≥ st.deadline
   -- a crash point in the past rewinds the store: what comes up is what had been there (same
   -- incarnations), and the later history of this case never happened
@@ -261,10 +327,19 @@ def oracle (st : OSt) (op : Op) (v : View) : OSt × List String :=
       | none => none)
   let removed := (p.fabs.filter (fun f => !present f.idx)).map (·.idx)
   let v07c := if restartLike op || removed.isEmpty then [] else
-    (p.sess.filter (fun s => s.kind = "c" && !removed.contains s.fab)).filterMap (fun s =>
+    -- (sessions of fabrics that are THERE before the op; a session left over from a fabric that went
+    -- away earlier - e.g. the expired own session of a RemoveFabric - belongs to no other fabric)
+    -- (nor is a session judged that the subscription reporter dropped meanwhile)
+    (p.sess.filter (fun s => s.kind = "c" && !removed.contains s.fab && p.fabs.any (fun f => f.idx = s.fab)
+        && !dropped.contains s.id)).filterMap (fun s =>
       match v.sess.find? (fun t => t.id = s.id) with
       | some t => if t.expired ≠ s.expired then some s!"C07 other-fabric-session: session {s.id} of fabric {s.fab} changed while fabric {removed} went away" else none
       | none => some s!"C07 other-fabric-session: session {s.id} of fabric {s.fab} disappeared while fabric {removed} went away")
+  -- a session that is usable (not expired, not a handshake still in flight) while its fabric is gone
+  let wiped : Bool := if restartLike op then false else (st.wiped || op == .freset)
+  let v07d := if wiped then [] else
+    (v.sess.filter (fun s => !s.expired && !s.reserved && s.fab ≠ 0 && !present s.fab)).map (fun s =>
+      s!"C07 session-outlives-fabric: session {s.id} ({s.kind}{s.fab}, peer {s.peer}) is usable but fabric index {s.fab} is gone")
   -- 5. C08: the fail-safe context
   let isArmOk : Bool := match op with
     | .arm _ secs => secs ≠ 0 && okS
@@ -300,7 +375,7 @@ def oracle (st : OSt) (op : Op) (v : View) : OSt × List String :=
   -- what the acknowledgements committed
   let underFs : Bool := p.armed = some opFab && !expiredByTimer
   let isWrite : Bool := match op with
-    | .acl .. | .grp .. | .label .. => true
+    | .acl .. | .grp .. | .label .. | .fwrite _ => true
     | _ => false
   let isComplete : Bool := match op with
     | .complete _ => true
@@ -373,6 +448,13 @@ def oracle (st : OSt) (op : Op) (v : View) : OSt × List String :=
           | none =>
             ([s!"C11 crash-mismatch: restart from the store after mutation {n}: {(diffView v.fabs v.nets a []).getD ""}"],
              viewCmt v, v.nets, hist', false, [])
+    | .coldreset | .fabrecover _ =>
+      -- a factory reset before / instead of a successful start-up: nothing may be left, whatever the
+      -- node had in memory, and the node must come up (empty)
+      let left := !v.kvFabs.isEmpty || v.kvNets ≠ "none" || v.kvRes ≠ "none" || v.kvOther ≠ "" || !v.fabs.isEmpty
+      ((if left then [s!"C11 factory-reset-leftover: store F{v.kvFabs.map (·.canon)} N[{v.kvNets}] R{v.kvRes} O[{v.kvOther}] node F{v.fabs.map (·.canon)} status {v.status}"]
+        else if v.status ≠ "ok" then [s!"C11 reset-recovery-failed: {v.status}"] else []),
+       [], "-:0", [], false, [])
     | .freset =>
       if okS then
         let left := !v.kvFabs.isEmpty || v.kvNets ≠ "none" || v.kvRes ≠ "none" || v.kvOther ≠ "" || !v.fabs.isEmpty
@@ -380,11 +462,111 @@ def oracle (st : OSt) (op : Op) (v : View) : OSt × List String :=
          [], "-:0", st.hist, false, [])
       else ([], cmtF, cmtN, st.hist, true, dirty)
     | _ => ([], cmtF, cmtN, st.hist, st.cmtUnknown, dirty)
+  -- 7. handler-level extension (real Write / Subscribe interactions): group key map, bindings, user
+  -- labels, node label, subscriptions
+  let hasX := !v.x.isEmpty
+  let xm (name : String) : String := xget v.x name
+  let isExtWrite := okS && (kind == "bind" || kind == "ulabel" || kind == "nlabel")
+  let secOf : String := if kind == "bind" then "B" else if kind == "ulabel" then "UL" else "NL"
+  let vx1 : List String :=
+    if hasX && isExtWrite && xm secOf ≠ xm ("K" ++ secOf) then
+      [s!"C11 acked-ext-not-stored: {kind} acknowledged, node has {secOf}[{xm secOf}] but a node restarted from the store would load [{xm ("K" ++ secOf)}]"]
+    else if hasX && okS && kind == "gkm" && !underFs && fabEntry (xm "K") opFab ≠ fabEntry (xm "KK") opFab then
+      [s!"C11 acked-ext-not-stored: group key map of fabric {opFab} is [{fabEntry (xm "K") opFab}] in memory but [{fabEntry (xm "KK") opFab}] in the store after an acknowledged write outside a fail-safe"]
+    else []
+  -- committed view of the extension
+  let cx0 := st.cmtX
+  let cx1 := if isExtWrite then setS cx0 secOf (xm secOf) else cx0
+  let cx2 := if okS && kind == "gkm" && !underFs then setS cx1 s!"K:{opFab}" (fabEntry (xm "K") opFab) else cx1
+  let cx3 := if isComplete && okS then setS cx2 s!"K:{opFab}" (fabEntry (xm "K") opFab) else cx2
+  -- a fabric that goes away takes its bindings with it (`LifecycleOp::FabricRemoval`, stored at once)
+  let cx4 := if removed.isEmpty || restartLike op then cx3 else
+    setS (cx3.filter (fun e => !(removed.any (fun i => e.1 == s!"K:{i}"))))
+      "B" (";".intercalate ((items (getS cx3 "B" "")).filter (fun e => !removed.contains (entryFab e))))
+  let kOnly (l : List (String × String)) : List (String × String) := l.filter (fun e => e.1.startsWith "K:")
+  -- the group key maps a restart may come up with: the committed ones; after `crash n` those of
+  -- mutation `n` (inside the writes of one op: that op's as well)
+  let (kWants, histX0) : List (List (String × String)) × List (Nat × List (String × String)) :=
+    match op with
+    | .crash n =>
+      let le := st.histX.filter (fun e => e.1 ≤ n)
+      let gt := (st.histX.filter (fun e => e.1 > n)).reverse
+      let base : List (String × String) := match le with
+        | e :: _ => e.2
+        | [] => []
+      let exact : Bool := match le with
+        | e :: _ => e.1 = n
+        | [] => n = 0
+      ((if exact then [base] else match gt with
+          | e :: _ => [base, e.2]
+          | [] => [base]), le)
+    | .coldreset | .fabrecover _ => ([[]], [])
+    | _ => ([kOnly cx4], st.histX)
+  let vx2 : List String :=
+    if !hasX then []
+    else match op with
+      | .coldreset | .fabrecover _ =>
+        if xm "B" ≠ "" || xm "UL" ≠ "" || (xm "NL" ≠ "-" && xm "NL" ≠ "") || xm "SUB" ≠ "" || xm "KB" ≠ "" || xm "KUL" ≠ "" || xm "KSUB" ≠ "" then
+          [s!"C11 factory-reset-leftover: extension B[{xm "B"}] UL[{xm "UL"}] NL[{xm "NL"}] SUB[{xm "SUB"}] stored B[{xm "KB"}] UL[{xm "KUL"}] SUB[{xm "KSUB"}]"]
+        else []
+      | .restart | .crash _ | .corrupt =>
+        (["B", "UL", "NL"].filterMap (fun name =>
+          -- (a binding of a fabric that was never committed goes with it)
+          let want0 := getS cx4 name (if name == "NL" then "-" else "")
+          let want := if name == "B" then ";".intercalate ((items want0).filter (fun e => present (entryFab e))) else want0
+          if xm name ≠ want then some s!"C11 restart-mismatch: after the restart {name}[{xm name}] but acknowledged [{want}]" else none)) ++
+        (v.fabs.filterMap (fun f =>
+          let wants := kWants.map (fun w => getS w s!"K:{f.idx}" "-")
+          if !wants.contains (fabEntry (xm "K") f.idx) then
+            some s!"C11 restart-mismatch: after the restart the group key map of fabric {f.idx} is [{fabEntry (xm "K") f.idx}] but committed {wants}"
+          else none))
+      | _ => []
+  let cx5 := match op with
+    | .coldreset | .fabrecover _ => []
+    | .restart | .crash _ | .corrupt =>
+      if hasX then
+        let c := setS cx4 "B" (";".intercalate ((items (getS cx4 "B" "")).filter (fun e => present (entryFab e))))
+        -- after a crash the key maps that came up are the committed ones from here on
+        match op with
+        | .crash _ => (c.filter (fun e => !e.1.startsWith "K:")) ++ v.fabs.map (fun f => (s!"K:{f.idx}", fabEntry (xm "K") f.idx))
+        | _ => c
+      else cx4
+    | _ => cx4
+  let histX := (v.k, kOnly cx5) :: histX0
+  -- C08: the deferred group key map is undone with the fail-safe
+  let vx3 : List String :=
+    if !hasX || !ended || restartLike op || isComplete then []
+    else v.fabs.filterMap (fun f =>
+      let want := getS cx5 s!"K:{f.idx}" "-"
+      if !dirty.contains f.idx && fabEntry (xm "K") f.idx ≠ want then
+        some s!"C08 rollback-mismatch: after the fail-safe ended without completion the group key map of fabric {f.idx} is [{fabEntry (xm "K") f.idx}] but committed [{want}]"
+      else none)
+  -- C07: bindings / subscriptions of a fabric that is gone, or of another incarnation of the index
+  let xents : List String := (items (xm "B")).map (fun e => "B " ++ e) ++ (items (xm "SUB")).map (fun e => "SUB " ++ e)
+  let xBind : List (String × Nat) := if restartLike op && !hasX then [] else xents.map (fun e =>
+    match st.xBind.find? (fun b => b.1 = e) with
+    | some b => b
+    | none => (e, lookupD inc (entryFab ((e.splitOn " ").getLastD "")) 0))
+  let vx4 : List String := if !hasX || wiped then [] else
+    xents.filterMap (fun e =>
+      let fab := entryFab ((e.splitOn " ").getLastD "")
+      -- (a subscription of a gone fabric is dropped lazily by the reporter and cannot be used meanwhile;
+      -- a binding is dropped synchronously by the FabricRemoval broadcast)
+      if !present fab then (if e.startsWith "SUB" then none else some s!"C07 ext-outlives-fabric: [{e}] refers to fabric index {fab}, which is gone")
+      else match xBind.find? (fun b => b.1 = e) with
+        | some b => if b.2 ≠ lookupD inc fab 0 then
+            some s!"C07 stale-ext: [{e}] was made for incarnation {b.2} of fabric index {fab} and is still there on incarnation {lookupD inc fab 0}"
+          else none
+        | none => none)
+  -- 8. TLV round trip of a persisted structure (store -> load -> store): the implementation reports a mismatch
+  let vrt : List String :=
+    if kind == "rt" && v.status ≠ "ok" then [s!"C11 roundtrip-mismatch: {v.status}"] else []
   let hist := (v.k, (cmtF, cmtN), op == .freset) :: hist
   ({ prev := v, inc := inc, sessBind := sessBind, resBind := resBind, kvResBind := kvResBind,
      cmtF := cmtF, cmtN := cmtN, cmtUnknown := cmtUnknown, dirty := dirty, hist := hist,
-     now := now, deadline := deadline, csr0 := csr0, csr1 := csr1, rootC := rootC, nocC := nocC },
-   v07a ++ v07b ++ v07c ++ v08g ++ v08c ++ v08r ++ v08e ++ v11w ++ v11r)
+     now := now, deadline := deadline, csr0 := csr0, csr1 := csr1, rootC := rootC, nocC := nocC, wiped := wiped,
+     cmtX := cx5, xBind := xBind, histX := histX },
+   v07a ++ v07b ++ v07c ++ v07d ++ vx4 ++ vx3 ++ vx1 ++ vx2 ++ vrt ++ v08g ++ v08c ++ v08r ++ v08e ++ v11w ++ v11r)
 
 /-! ## the driver loop -/
 
@@ -421,23 +603,32 @@ def step (st : St) (line : String) : St × String :=
       match parseView out with
       | none => (st, "BAD output")
       | some v =>
+        let dropped : List Nat := match ws with
+          | "tick" :: _ :: rest => rest.filterMap (fun w => w.toNat?)
+          | _ => []
         let (node', status) : Node × Status :=
           match st.hmode, op with
           | true, .tick _ =>
-            -- the real poll of the interaction model runs while the time passes
+            -- the real poll of the interaction model runs while the time passes; so does the
+            -- subscription reporter: the sessions it dropped are named after the seconds
             let (n1, _) := Admin.step st.cfg st.node op
-            let (n2, _) := Admin.step st.cfg n1 .poll
+            let n1' := dropped.foldl (fun n sid => (Admin.step st.cfg n (.sdrop sid)).1) n1
+            let (n2, _) := Admin.step st.cfg n1' .poll
             (n2, .ok)
           | _, _ => Admin.step st.cfg st.node op
+        let isExt : Bool := match op with
+          | .ext _ => true
+          | _ => false
         let statusS : String :=
-          if st.hmode && v.status = "rej" then (if status.accepted then status.render else "rej") else status.render
+          if isExt && status.accepted then v.status
+          else if st.hmode && v.status = "rej" then (if status.accepted then status.render else "rej") else status.render
         let modelOut := s!"{statusS} | {node'.dump}"
-        let (ost', viols) := oracle st.ost op v
+        let (ost', viols) := oracle st.ost op v (ws.headD "") dropped
         let mine := viols.filter (fun m => m.startsWith st.prop)
         let st' := { st with node := node', ost := ost' }
         match mine with
         | m :: _ => (st', s!"ORA {m}")
-        | [] => if modelOut = out then (st', "ok") else (st', s!"DIS {modelOut}")
+        | [] => if modelOut = stripX out then (st', "ok") else (st', s!"DIS {modelOut}")
 
 def run (prop : String) : IO UInt32 := Driver.runLoop ({ prop := prop } : St) step
 
